@@ -203,7 +203,7 @@ def install(E):
         if isinstance(v, (I, B)):
             return E.cast_int(v, dst)
         return NotImplemented
-    reg(r'^<(u8|u16|u32|u64|u128|usize|i8|i16|i32|i64|i128|isize) as From<\w+>>::from$', h_from_int)
+    reg(r'^<(u8|u16|u32|u64|u128|usize|i8|i16|i32|i64|i128|isize) as (?:std::convert::|core::convert::)?From<\w+>>::from$', h_from_int)
 
     def h_into_int(E, m, func, argv, guard, mem, dty, caller):
         v = argv[0]
@@ -212,7 +212,7 @@ def install(E):
         if m.group(1) == m.group(2):
             return v
         return NotImplemented
-    reg(r'^<([\w:]+) as Into<([\w:]+)>>::into$', h_into_int)
+    reg(r'^<([\w:]+) as (?:std::convert::|core::convert::)?Into<([\w:]+)>>::into$', h_into_int)
 
     def h_try_from_int(E, m, func, argv, guard, mem, dty, caller):
         dst = m.group(1)
@@ -220,15 +220,15 @@ def install(E):
         if not isinstance(v, I):
             return NotImplemented
         ok = E.in_range(v.t, dst)
-        val = I(v.t if ok is True else E.wrap(v.t, dst), dst)
+        val = I(v.t, dst)   # only meaningful when Ok
         if ok is True:
             return En('Result', 0, {0: [val], 1: [UNIT]})
         return En('Result', If(ok, 0, 1), {0: [val], 1: [UNIT]})
-    reg(r'^<(u8|u16|u32|u64|u128|usize|i8|i16|i32|i64|i128|isize) as TryFrom<\w+>>::try_from$', h_try_from_int)
+    reg(r'^<(u8|u16|u32|u64|u128|usize|i8|i16|i32|i64|i128|isize) as (?:std::convert::|core::convert::)?TryFrom<\w+>>::try_from$', h_try_from_int)
 
     def h_try_into_int(E, m, func, argv, guard, mem, dty, caller):
         return h_try_from_int(E, re.match(r'(.*)', m.group(2)), func, argv, guard, mem, dty, caller)
-    reg(r'^<(\w+) as TryInto<(u8|u16|u32|u64|u128|usize|i8|i16|i32|i64|i128|isize)>>::try_into$',
+    reg(r'^<(\w+) as (?:std::convert::|core::convert::)?TryInto<(u8|u16|u32|u64|u128|usize|i8|i16|i32|i64|i128|isize)>>::try_into$',
         lambda E, m, func, argv, guard, mem, dty, caller: h_try_from_int(E, re.match(r'(\w+)', m.group(2)), func, argv, guard, mem, dty, caller))
 
     def h_clone(E, m, func, argv, guard, mem, dty, caller):
